@@ -300,6 +300,11 @@ func (r *c06Run) runJobs(next func() (c06Job, bool)) {
 }
 
 func (r *c06Run) trace(stream *verifStream, name string, evs []c06Ev) {
+	r.traceState(stream, name, evs)
+}
+
+// traceState runs one trace and returns the final CmdCount and digest.
+func (r *c06Run) traceState(stream *verifStream, name string, evs []c06Ev) (finalCount uint32, finalSum []byte) {
 	v := r.v
 	srv := c06NewClientIO()
 	ref := c06NewClientIO() // same command stream, one command per Exec call (re-chunked)
@@ -597,6 +602,231 @@ func (r *c06Run) trace(stream *verifStream, name string, evs []c06Ev) {
 	}
 	v.Case(stream, "(["+strings.Join(steps, ";\n ")+"], "+fin+")", meta)
 	v.Seen(key.String(), nontrivial, meta)
+	return srv.CmdCount(), srv.Hash().Sum(nil)
+}
+
+// ---------------------------------------------------------------------------------------------
+// scale: many distinct clients.  A committed chain in blocks of 128 commands: first every one of C
+// clients gets its command (c, 1) executed; then a lagging leader's blocks repeat already executed
+// commands of early, middle and late clients next to a few new ones (c, 2); then more of both.
+// Several ClientIO instances are fed the same chain: one through traceState (all per-step
+// observations, kernel case) when C is small enough, one with a waiting ExecCommand caller for every
+// client (awaitingCmds at scale) plus retransmitting callers, one without callers.  Every command
+// is executed exactly once: CmdCount and digest after every block equal the reference computed
+// from the first occurrences in chain order, on every instance; a caller is told success only for
+// a command that has been executed.
+
+func c06ScaleChain(C int) (blocks [][]c06Cmd, firstOcc [][]c06Cmd) {
+	cmd := func(i int, seq uint64) c06Cmd {
+		return c06Cmd{C: uint32(1 + 13*i), S: seq, D: []byte{byte(i), byte(i >> 8), byte(i >> 16), byte(seq)}}
+	}
+	const B = 128
+	var cur []c06Cmd
+	flush := func() {
+		if len(cur) > 0 {
+			blocks = append(blocks, cur)
+			cur = nil
+		}
+	}
+	for i := 0; i < C; i++ {
+		cur = append(cur, cmd(i, 1))
+		if len(cur) == B {
+			flush()
+		}
+	}
+	flush()
+	zones := []int{0, C / 2, C - 40}
+	for round := 0; round < 3; round++ {
+		for zi, z := range zones {
+			// 36 repeats from this zone, 4 new commands of clients of the zone, per zone; a block
+			for k := 0; k < 36; k++ {
+				i := (z + (k*7+round*11)%40) % C
+				cur = append(cur, cmd(i, 1))
+				if round > 0 {
+					cur = append(cur, cmd((z+k%4+4*(round-1))%C, 2)) // repeats of (c, 2) executed in an earlier round
+				}
+			}
+			for k := 0; k < 4; k++ {
+				cur = append(cur, cmd((z+k+4*round)%C, 2))
+			}
+			_ = zi
+		}
+		flush()
+	}
+	type id struct {
+		c uint32
+		s uint64
+	}
+	seen := map[id]bool{}
+	for _, b := range blocks {
+		var f []c06Cmd
+		for _, c := range b {
+			if !seen[id{c.C, c.S}] {
+				seen[id{c.C, c.S}] = true
+				f = append(f, c)
+			}
+		}
+		firstOcc = append(firstOcc, f)
+	}
+	return blocks, firstOcc
+}
+
+func (r *c06Run) scale(stream *verifStream, C int, kernel bool) {
+	v := r.v
+	blocks, firstOcc := c06ScaleChain(C)
+	meta := map[string]any{"stream": "cio_s", "clients": C, "blocks": len(blocks), "chain": "c06ScaleChain(clients): client i has id 1+13i; blocks of 128 commands (i,1) for i<clients, then 3 blocks repeating executed commands of early/middle/late clients with a few (i,2)"}
+	// reference: first occurrences in chain order
+	type state struct {
+		count uint32
+		sum   []byte
+	}
+	var want []state
+	{
+		h := sha256.New()
+		n := uint32(0)
+		for _, f := range firstOcc {
+			for _, c := range f {
+				h.Write(c.D)
+				n++
+			}
+			want = append(want, state{n, h.Sum(nil)})
+		}
+	}
+	executedBy := map[clientpb.MessageID]int{} // block index that executes the command
+	for bi, f := range firstOcc {
+		for _, c := range f {
+			executedBy[c.pb().ID()] = bi
+		}
+	}
+	sample := func() (idx []int) {
+		for _, z := range []int{0, C / 2, C - 40} {
+			for k := 0; k < 10; k++ {
+				idx = append(idx, (z+k*3)%C)
+			}
+		}
+		return idx
+	}
+	v.Count(fmt.Sprintf("scale:clients=%d", C))
+
+	// instance A: every per-step observation, oracle and the kernel case (sampled callers)
+	if kernel {
+		var evs []c06Ev
+		for _, i := range sample() {
+			evs = append(evs, c06Ev{Kind: "reg", Cmd: blocks[i/128][i%128]})
+		}
+		for bi, b := range blocks {
+			if bi == len(blocks)-3 {
+				for _, i := range sample()[:8] { // retransmissions of executed commands
+					evs = append(evs, c06Ev{Kind: "reg", Cmd: blocks[i/128][i%128]})
+				}
+			}
+			evs = append(evs, c06Ev{Kind: "exec", Batch: b})
+		}
+		n, sum := r.traceState(stream, "cio_s", evs)
+		fin := want[len(want)-1]
+		v.Oracle(n == fin.count && bytes.Equal(sum, fin.sum), "clientio.scale:not-every-command-executed-exactly-once",
+			fmt.Sprintf("%d clients: after the chain the traced ClientIO has count %d, the first occurrences in chain order are %d commands (or the digest differs)", C, n, fin.count), meta)
+	}
+
+	// instances B (a waiting caller per client, capped) and D (none): lean, oracle only
+	for _, callers := range []int{min(C, 6000), 0} {
+		srv := c06NewClientIO()
+		type wt struct {
+			w   *c06Waiter
+			cmd c06Cmd
+			re  bool
+		}
+		var ws []wt
+		step := C / max(callers, 1)
+		for k := 0; k < callers; k++ {
+			i := k * step
+			c := blocks[i/128][i%128]
+			ws = append(ws, wt{c06Register(srv, c.pb(), k), c, false})
+		}
+		nSucc, nFail, lost := 0, 0, 0
+		okState, okOutcome := true, true
+		firstBad := -1
+		for bi, b := range blocks {
+			if callers > 0 && bi == len(blocks)-3 {
+				for _, i := range sample() { // callers retransmitting commands that were executed long ago
+					c := blocks[i/128][i%128]
+					ws = append(ws, wt{c06Register(srv, c.pb(), len(ws)), c, true})
+				}
+			}
+			pb := &clientpb.Batch{}
+			for _, c := range b {
+				pb.Commands = append(pb.Commands, c.pb())
+			}
+			srv.Exec(pb)
+			if srv.CmdCount() != want[bi].count || !bytes.Equal(srv.Hash().Sum(nil), want[bi].sum) {
+				if okState {
+					firstBad = bi
+				}
+				okState = false
+			}
+			// outcomes that arrived with this block
+			for k := range ws {
+				if ws[k].w.got {
+					continue
+				}
+				inBlock := false
+				if eb, ok := executedBy[ws[k].w.id]; ok && eb == bi {
+					inBlock = true
+				}
+				if ws[k].re && bi >= len(blocks)-3 {
+					for _, c := range b {
+						if c.pb().ID() == ws[k].w.id {
+							inBlock = true
+							break
+						}
+					}
+				}
+				if !inBlock {
+					continue
+				}
+				select {
+				case err := <-ws[k].w.done:
+					ws[k].w.got = true
+					if err == nil {
+						nSucc++
+						if eb, ok := executedBy[ws[k].w.id]; !ok || eb > bi {
+							okOutcome = false
+						}
+					} else {
+						nFail++
+					}
+				case <-time.After(20 * time.Millisecond):
+				}
+			}
+		}
+		for k := range ws {
+			if !ws[k].w.got {
+				select {
+				case err := <-ws[k].w.done:
+					if err == nil {
+						nSucc++
+					} else {
+						nFail++
+					}
+				default:
+					lost++
+				}
+			}
+		}
+		what := fmt.Sprintf("%d clients, %d waiting callers", C, callers)
+		got := "-"
+		if firstBad >= 0 {
+			got = fmt.Sprintf("first differing block %d of %d", firstBad, len(blocks))
+		}
+		v.Oracle(okState, "clientio.scale:not-every-command-executed-exactly-once",
+			fmt.Sprintf("%s: CmdCount/digest after a block differ from executing each command once in chain order (%s; final count %d, expected %d)",
+				what, got, srv.CmdCount(), want[len(want)-1].count), meta)
+		v.Oracle(okOutcome, "clientio.outcome:success-without-execution", what+": a caller was told success before its command was executed", meta)
+		v.CountN("scale:callers-success", nSucc)
+		v.CountN("scale:callers-failure", nFail)
+		v.CountN("scale:callers-still-waiting", lost)
+		v.Seen(fmt.Sprintf("scale-%d-%d", C, callers), true, meta)
+	}
 }
 
 func sha256sum(b []byte) []byte { s := sha256.Sum256(b); return s[:] }
@@ -977,6 +1207,13 @@ func TestVerifC06(t *testing.T) {
 	// concurrency (oracle only)
 	for i := 0; i < v.Pick(150, 3000) && r.blocked < 3; i++ {
 		r.concurrent(i)
+	}
+	// scale: many distinct clients
+	ss := v.Stream("cio_s", "cio_mismatches", 1)
+	r.scale(ss, 1500, true)
+	r.scale(ss, 5000, false)
+	if v.Thorough() {
+		r.scale(ss, 70000, false)
 	}
 	if !c06CtxOK {
 		v.Note("gorums.ServerCtx could not be built by reflection; waiters were registered by writing awaitingCmds directly")
